@@ -202,6 +202,22 @@ def run(ctx):
                         continue
                     vd = cols[0][0]
                     name = vd[1] if vd[0] == 'variant' else str(vd)
+                    if vd[0] == 'param':
+                        # the colour is the helper's parameter: take what every call site passes; a call site that makes
+                        # the fresh slot the root is unconstrained
+                        names = set()
+                        for call2, caller in prog.callers(f):
+                            if call2.kind != 'call' or vd[1] - 1 >= len(call2.args):
+                                names.add('?')
+                                continue
+                            rooted2 = any(strip(st.root).kind == 'param' and st.fields() == ('root',) and strip(st.value) is call2 for st in caller.body.stores)
+                            if rooted2:
+                                continue
+                            a = strip(call2.args[vd[1] - 1])
+                            from summaries import val_desc
+                            d2 = val_desc(prog, caller, a)
+                            names.add(d2[1] if d2[0] == 'variant' else str(d2))
+                        name = names.pop() if len(names) == 1 else ('Red' if not names else '/'.join(sorted(names)))
                     if name == 'Red':
                         ctx.add('COLOR', f, 'fresh-node', 'ok', 'a freshly linked non-root node is red (black heights unchanged by the insertion itself)', PROPS, line)
                     else:
